@@ -78,9 +78,25 @@ where
     }
 
     pub(crate) fn unzip(self, expected_output_size: usize) -> Result<Vec<u8>> {
-        let mut decoder = ZlibDecoder::new(self.input);
-        let mut buffer = Vec::with_capacity(expected_output_size);
-        decoder.read_to_end(&mut buffer)?;
+        let decoder = ZlibDecoder::new(self.input);
+        // The expected size comes from the file, so do not reserve it up
+        // front, and stop inflating once the data is known to be too large.
+        let mut buffer = Vec::new();
+        decoder
+            .take(expected_output_size as u64 + 1)
+            .read_to_end(&mut buffer)?;
+        if buffer.len() != expected_output_size {
+            return Err(AsepriteParseError::InvalidInput(format!(
+                "Invalid compressed data size. Expected: {}, Actual: {}{}",
+                expected_output_size,
+                buffer.len(),
+                if buffer.len() > expected_output_size {
+                    " or more"
+                } else {
+                    ""
+                }
+            )));
+        }
         Ok(buffer)
     }
 }
